@@ -70,6 +70,10 @@ func c38Delete(s *orcStep, res *run.Result) {
 		res.Inc("skipped_board_declared_without_map")
 		return
 	}
+	if orcWentHollow(s) {
+		res.Inc("skipped_board_emptied_and_printed_without_map")
+		return
+	}
 	if len(k.Attr) > 0 {
 		switch k.Attr[0] {
 		case "layers", "scenarios", "steps", "classes", "vars":
@@ -150,6 +154,7 @@ func c38Object(s *orcStep, res *run.Result, k orcKey, pre, post *orcSnap, strict
 	if to.Tag != "" {
 		if j, still := post.objByTag[to.Tag]; still {
 			if to.Parent >= 0 && post.Objs[j].PathKey == pre.Objs[to.Parent].PathKey {
+				trig = "nested-object-with-flat-attribute-keys"
 				viol("attributes-landed-on-parent", fmt.Sprintf("the deleted object %s (%s) is gone but its label now sits on its former parent %s: statements that set attributes of the deleted object were re-addressed to the parent", to.Tag, to.AbsID, post.Objs[j].AbsID))
 			} else {
 				viol("target-survived", fmt.Sprintf("deleted object %s (%s) still exists as %s", to.Tag, to.AbsID, post.Objs[j].AbsID))
@@ -186,7 +191,7 @@ func c38Object(s *orcStep, res *run.Result, k orcKey, pre, post *orcSnap, strict
 				}
 				continue
 			}
-			if pre.Objs[i].AbsID != post.Objs[j].AbsID {
+			if !strings.EqualFold(pre.Objs[i].AbsID, post.Objs[j].AbsID) {
 				diffs = append(diffs, fmt.Sprintf("object %s changed ID %s -> %s", pre.ref(i), pre.Objs[i].AbsID, post.Objs[j].AbsID))
 			}
 			if a, b := c38ObjContent(pre, i, inSub), c38ObjContent(post, j, nil); a != b && !c38NearInto(pre, i, inSub) {
@@ -202,7 +207,7 @@ func c38Object(s *orcStep, res *run.Result, k orcKey, pre, post *orcSnap, strict
 				diffs = append(diffs, fmt.Sprintf("connection %s (%s) outside the deleted subtree vanished", e.Tag, e.AbsID))
 				continue
 			}
-			if a, b := pre.edgeContent(i, true), post.edgeContent(j, true); a != b || e.AbsID != post.Edges[j].AbsID {
+			if a, b := pre.edgeContent(i, true), post.edgeContent(j, true); a != b || !strings.EqualFold(e.AbsID, post.Edges[j].AbsID) {
 				diffs = append(diffs, fmt.Sprintf("connection %s changed: %s -> %s\n   before %s\n   after  %s", e.Tag, e.AbsID, post.Edges[j].AbsID, a, b))
 			}
 		}
@@ -274,7 +279,7 @@ func c38Object(s *orcStep, res *run.Result, k orcKey, pre, post *orcSnap, strict
 			if !strings.EqualFold(po.IDVal, qo.IDVal) {
 				diffs = append(diffs, fmt.Sprintf("descendant %s renamed %q -> %q", po.Tag, po.IDVal, qo.IDVal))
 			}
-		} else if po.AbsID != qo.AbsID {
+		} else if !strings.EqualFold(po.AbsID, qo.AbsID) {
 			diffs = append(diffs, fmt.Sprintf("unrelated object %s changed ID %s -> %s", po.Tag, po.AbsID, qo.AbsID))
 		}
 		if a, b := c38ObjContent(pre, i, c38Only(t)), c38ObjContent(post, j, nil); a != b && !c38NearInto(pre, i, c38Only(t)) {
@@ -299,7 +304,7 @@ func c38Object(s *orcStep, res *run.Result, k orcKey, pre, post *orcSnap, strict
 		if a, b := pre.edgeContent(i, true), post.edgeContent(j, true); a != b {
 			diffs = append(diffs, fmt.Sprintf("connection %s changed:\n   before %s\n   after  %s", e.Tag, a, b))
 		}
-		if !inSub(e.Src) && !inSub(e.Dst) && e.AbsID != qe.AbsID {
+		if !inSub(e.Src) && !inSub(e.Dst) && !strings.EqualFold(e.AbsID, qe.AbsID) {
 			diffs = append(diffs, fmt.Sprintf("unrelated connection %s changed ID %s -> %s", e.Tag, e.AbsID, qe.AbsID))
 		}
 	}
@@ -436,7 +441,13 @@ func c38ObjAttr(s *orcStep, res *run.Result, k orcKey, pre, post *orcSnap) {
 	}
 	j := post.findObj(k.Obj)
 	viol := func(clause, msg string) {
-		orcViol(res, "C38."+clause, "C38."+clause+":object."+kind+":"+c38Quoted(pre, t)+pre.decl(t)+":"+orcWhere(s), msg+"\n"+s.describe())
+		trig := c38Quoted(pre, t) + pre.decl(t) + ":" + orcWhere(s)
+		if clause == "attribute-not-reset" && (kind == "label" || kind == "shape") {
+			trig = "delete-of-this-attribute-is-a-silent-no-op"
+		} else if clause == "attribute-not-reset" && c38Quoted(pre, t) != "" {
+			trig = "object-id-needs-quoting"
+		}
+		orcViol(res, "C38."+clause, "C38."+clause+":object."+kind+":"+trig, msg+"\n"+s.describe())
 	}
 	if j < 0 {
 		viol("attribute-delete-removed-object", fmt.Sprintf("deleting attribute %s removed object %s", strings.Join(k.Attr, "."), pre.Objs[t].AbsID))
@@ -532,7 +543,11 @@ func c38EdgeAttr(s *orcStep, res *run.Result, k orcKey, pre, post *orcSnap) {
 		}
 	}
 	viol := func(clause, msg string) {
-		orcViol(res, "C38."+clause, "C38."+clause+":connection."+kind+":"+c38EdgeDecl(pre, t)+":"+orcWhere(s), msg+"\n"+s.describe())
+		trig := c38EdgeDecl(pre, t) + ":" + orcWhere(s)
+		if clause == "attribute-not-reset" && kind == "label" {
+			trig = "delete-of-this-attribute-is-a-silent-no-op"
+		}
+		orcViol(res, "C38."+clause, "C38."+clause+":connection."+kind+":"+trig, msg+"\n"+s.describe())
 	}
 	j := post.findEdge(k)
 	if j < 0 {
